@@ -1,4 +1,602 @@
-//! C08 — stub, replaced when the property's harness lands.
-use crate::util::{Em, Rng};
+//! C08 — DBSCAN and OPTICS against the density-clustering definition.
+//!
+//! Per configuration (point set, metric, tolerance, min_points) and per neighbour index the harness
+//! records what `within_range` returns for every sample (order kept) and the distances the real
+//! `dist_fn` computes for those pairs, runs the real `Dbscan` / `Optics` transform, and emits
+//!   `dbscan n= mp= zd= nb=`            -> `ok <labels>`
+//!   `optics n= mp= zd= nb= nd=`        -> `ok idx:core:reach;…`
+//! The Lean model is run on the same neighbour lists / distances, so every comparison is exact.
+//!
+//! Oracle (textbook definition, recomputed by brute force):
+//!   stream=main   : the tolerance is separated from every inter-point distance (relative margin
+//!                   >= 1e-9); the neighbourhood is `{j | d(i,j) < tol}` computed here from the
+//!                   coordinates, and the result must also be identical to the linear-scan run.
+//!   stream=radius : the tolerance equals (or is within 1e-9 of) an inter-point distance — whether such
+//!                   a point is "within" is the border question of C07; here the neighbourhood is
+//!                   the recorded query result (if symmetric) and indices are not compared.
+use crate::util::*;
+use linfa::traits::Transformer;
+use linfa::ParamGuard;
+use linfa_clustering::{Dbscan, Optics};
+use linfa_nn::distance::{Distance, L1Dist, L2Dist, LInfDist};
+use linfa_nn::{BuildError, CommonNearestNeighbour, NearestNeighbour};
+use ndarray::Array2;
+use std::panic::{catch_unwind, AssertUnwindSafe};
 
-pub fn run(_em: &mut Em, _rng: &mut Rng) {}
+#[derive(Clone, Copy, PartialEq)]
+enum Met {
+    L1,
+    L2,
+    Linf,
+}
+impl Met {
+    fn name(self) -> &'static str {
+        match self {
+            Met::L1 => "L1",
+            Met::L2 => "L2",
+            Met::Linf => "Linf",
+        }
+    }
+    /// distance from the coordinates, written out here (not linfa's)
+    fn my(self, a: &[f64], b: &[f64]) -> f64 {
+        match self {
+            Met::L1 => a.iter().zip(b).fold(0.0, |s, (x, y)| s + (x - y).abs()),
+            Met::L2 => a.iter().zip(b).fold(0.0, |s, (x, y)| s + (x - y) * (x - y)).sqrt(),
+            Met::Linf => a.iter().zip(b).fold(0.0, |s, (x, y)| f64::max(s, (x - y).abs())),
+        }
+    }
+}
+
+const IDX: [(CommonNearestNeighbour, &str); 3] = [
+    (CommonNearestNeighbour::LinearSearch, "linear"),
+    (CommonNearestNeighbour::KdTree, "kdtree"),
+    (CommonNearestNeighbour::BallTree, "balltree"),
+];
+
+type OptOut = Vec<(usize, Option<f64>, Option<f64>)>;
+
+/// everything observed from the real code for one (points, metric, index, tol, mp)
+#[derive(Clone)]
+struct Real {
+    zd: bool,
+    nb: Vec<Vec<usize>>,
+    nd: Vec<Vec<f64>>,
+    /// full distance matrix by the real dist_fn (oracle values)
+    dm: Vec<Vec<f64>>,
+}
+
+fn arr(pts: &[Vec<f64>], p: usize) -> Array2<f64> {
+    Array2::from_shape_fn((pts.len(), p), |(i, j)| pts[i][j])
+}
+
+fn observe<D: Distance<f64> + Clone>(x: &Array2<f64>, d: D, ix: &CommonNearestNeighbour, tol: f64) -> Real {
+    let n = x.nrows();
+    // records without features: linfa's distance functions reject empty views; the distance of two
+    // empty vectors is 0
+    let dm: Vec<Vec<f64>> = if x.ncols() == 0 { vec![vec![0.0; n]; n] } else { (0..n).map(|i| (0..n).map(|j| d.distance(x.row(i), x.row(j))).collect()).collect() };
+    match ix.from_batch(x, d.clone()) {
+        Err(BuildError::ZeroDimension) => Real { zd: true, nb: vec![], nd: vec![], dm },
+        Err(e) => panic!("index build: {}", e),
+        Ok(nn) => {
+            let nb: Vec<Vec<usize>> = (0..n).map(|i| nn.within_range(x.row(i), tol).unwrap().into_iter().map(|(_, j)| j).collect()).collect();
+            let nd = nb.iter().enumerate().map(|(i, l)| l.iter().map(|&j| dm[i][j]).collect()).collect();
+            Real { zd: false, nb, nd, dm }
+        }
+    }
+}
+
+fn run_dbscan<D: Distance<f64> + Clone>(x: &Array2<f64>, d: D, ix: &CommonNearestNeighbour, tol: f64, mp: usize) -> Vec<Option<usize>> {
+    let params = Dbscan::params_with::<f64, _, _>(mp, d, ix.clone()).tolerance(tol).check_unwrap();
+    params.transform(x).to_vec()
+}
+
+fn run_optics<D: Distance<f64> + Clone>(x: &Array2<f64>, d: D, ix: &CommonNearestNeighbour, tol: f64, mp: usize) -> OptOut {
+    let params = Optics::params_with::<f64, _, _>(mp, d, ix.clone()).tolerance(tol).check_unwrap();
+    let res = params.transform(x.view());
+    res.iter().map(|s| (s.index(), *s.core_distance(), *s.reachability_distance())).collect()
+}
+
+macro_rules! with_metric {
+    ($m:expr, $f:ident ( $($a:expr),* )) => {
+        match $m {
+            Met::L1 => $f($($a),*, L1Dist),
+            Met::L2 => $f($($a),*, L2Dist),
+            Met::Linf => $f($($a),*, LInfDist),
+        }
+    };
+}
+fn observe_m(x: &Array2<f64>, ix: &CommonNearestNeighbour, tol: f64, m: Met) -> Real {
+    fn go<D: Distance<f64> + Clone>(x: &Array2<f64>, ix: &CommonNearestNeighbour, tol: f64, d: D) -> Real {
+        observe(x, d, ix, tol)
+    }
+    with_metric!(m, go(x, ix, tol))
+}
+fn dbscan_m(x: &Array2<f64>, ix: &CommonNearestNeighbour, tol: f64, mp: usize, m: Met) -> Vec<Option<usize>> {
+    fn go<D: Distance<f64> + Clone>(x: &Array2<f64>, ix: &CommonNearestNeighbour, tol: f64, mp: usize, d: D) -> Vec<Option<usize>> {
+        run_dbscan(x, d, ix, tol, mp)
+    }
+    with_metric!(m, go(x, ix, tol, mp))
+}
+fn optics_m(x: &Array2<f64>, ix: &CommonNearestNeighbour, tol: f64, mp: usize, m: Met) -> OptOut {
+    fn go<D: Distance<f64> + Clone>(x: &Array2<f64>, ix: &CommonNearestNeighbour, tol: f64, mp: usize, d: D) -> OptOut {
+        run_optics(x, d, ix, tol, mp)
+    }
+    with_metric!(m, go(x, ix, tol, mp))
+}
+
+fn show_labels(l: &[Option<usize>]) -> String {
+    list(l.iter(), |x| match x {
+        Some(c) => c.to_string(),
+        None => "-".to_string(),
+    })
+}
+fn show_opt(x: &Option<f64>) -> String {
+    match x {
+        Some(v) => hex64(*v),
+        None => "-".to_string(),
+    }
+}
+fn show_optics(o: &OptOut) -> String {
+    o.iter().map(|(i, c, r)| format!("{}:{}:{}", i, show_opt(c), show_opt(r))).collect::<Vec<_>>().join(";")
+}
+
+// ------------------------------------------------------------------------------------------ oracle
+
+/// neighbourhood relation the oracle judges against: `Some(adjacency)` or `None` when the recorded
+/// relation is unusable (asymmetric / irreflexive on the radius stream)
+fn neighbourhood(pts: &[Vec<f64>], m: Met, tol: f64, main: bool, real: &Real) -> Option<Vec<Vec<bool>>> {
+    let n = pts.len();
+    if main {
+        Some((0..n).map(|i| (0..n).map(|j| m.my(&pts[i], &pts[j]) < tol).collect()).collect())
+    } else {
+        if real.zd {
+            return None;
+        }
+        let mut a = vec![vec![false; n]; n];
+        for (i, l) in real.nb.iter().enumerate() {
+            for &j in l {
+                a[i][j] = true;
+            }
+        }
+        let ok = (0..n).all(|i| a[i][i] && (0..n).all(|j| a[i][j] == a[j][i]));
+        if ok {
+            Some(a)
+        } else {
+            None
+        }
+    }
+}
+
+fn oracle_dbscan(ctx: &mut Ctx, class: &str, adj: &[Vec<bool>], mp: usize, labels: &[Option<usize>]) {
+    let n = adj.len();
+    ctx.require(labels.len() == n, "shape", class, || format!("{} labels for {} samples", labels.len(), n));
+    if labels.len() != n {
+        return;
+    }
+    let core: Vec<bool> = (0..n).map(|i| adj[i].iter().filter(|b| **b).count() >= mp).collect();
+    // labelled <=> core or within the tolerance of a core point
+    for i in 0..n {
+        let reach = core[i] || (0..n).any(|j| adj[i][j] && core[j]);
+        ctx.require(labels[i].is_some() == reach, "labelled_iff", class, || {
+            format!("sample {}: label {:?}, core={}, in range of a core point={}", i, labels[i], core[i], reach)
+        });
+    }
+    // adjacent core points share a label
+    for i in 0..n {
+        for j in 0..n {
+            if core[i] && core[j] && adj[i][j] {
+                ctx.require(labels[i] == labels[j], "core_adjacent_same", class, || format!("core samples {} and {} are within the tolerance, labels {:?} / {:?}", i, j, labels[i], labels[j]));
+            }
+        }
+    }
+    // components of the core graph
+    let mut comp = vec![usize::MAX; n];
+    let mut nc = 0;
+    for s in 0..n {
+        if core[s] && comp[s] == usize::MAX {
+            let mut st = vec![s];
+            comp[s] = nc;
+            while let Some(u) = st.pop() {
+                for v in 0..n {
+                    if core[v] && adj[u][v] && comp[v] == usize::MAX {
+                        comp[v] = nc;
+                        st.push(v);
+                    }
+                }
+            }
+            nc += 1;
+        }
+    }
+    for i in 0..n {
+        for j in 0..i {
+            if core[i] && core[j] && comp[i] != comp[j] {
+                ctx.require(labels[i] != labels[j] || labels[i].is_none(), "components_differ", class, || format!("core samples {} and {} lie in different density-connected components, both labelled {:?}", i, j, labels[i]));
+            }
+        }
+    }
+    // a border point carries the label of a core point that reaches it
+    for i in 0..n {
+        if !core[i] && labels[i].is_some() {
+            let ok = (0..n).any(|j| adj[i][j] && core[j] && labels[j] == labels[i]);
+            ctx.require(ok, "border_label", class, || format!("border sample {} labelled {:?}, no core point with that label within the tolerance", i, labels[i]));
+        }
+    }
+    // ids 0..c-1 without gaps
+    let mut ids: Vec<usize> = labels.iter().filter_map(|x| *x).collect();
+    ids.sort();
+    ids.dedup();
+    ctx.require(ids.iter().enumerate().all(|(k, v)| k == *v), "ids_contiguous", class, || format!("cluster ids in use: {:?}", ids));
+}
+
+fn oracle_optics(ctx: &mut Ctx, class: &str, adj: &[Vec<bool>], dm: &[Vec<f64>], mp: usize, out: &OptOut) {
+    let n = adj.len();
+    // every sample exactly once
+    let mut seen = vec![0usize; n];
+    for (i, _, _) in out {
+        if *i < n {
+            seen[*i] += 1;
+        }
+    }
+    let once = out.len() == n && seen.iter().all(|c| *c == 1);
+    ctx.require(once, "each_once", class, || format!("ordering lists {:?}", out.iter().map(|x| x.0).collect::<Vec<_>>()));
+    if !once {
+        return;
+    }
+    let mut pos = vec![0usize; n];
+    let mut cd = vec![None; n];
+    for (k, (i, c, _)) in out.iter().enumerate() {
+        pos[*i] = k;
+        cd[*i] = *c;
+    }
+    // core distance = distance to the min_points-th nearest neighbour (self included) if within the tolerance
+    for i in 0..n {
+        let mut ds: Vec<f64> = (0..n).filter(|j| adj[i][*j]).map(|j| dm[i][j]).collect();
+        ds.sort_by(|a, b| a.partial_cmp(b).unwrap());
+        let want = ds.get(mp - 1).copied();
+        ctx.require(cd[i] == want, "core_distance", class, || format!("sample {}: core distance {:?}, distance to its {}-th nearest neighbour within the tolerance {:?} (sorted in-range distances {:?})", i, cd[i], mp, want, ds));
+    }
+    // reachability: undefined, or max(core(o), d(o,x)) for a core o within the tolerance listed no later
+    for (x, _, r) in out {
+        if let Some(r) = r {
+            let ok = (0..n).any(|o| cd[o].is_some() && adj[*x][o] && pos[o] <= pos[*x] && f64::max(cd[o].unwrap(), dm[o][*x]) == *r);
+            ctx.require(ok, "reachability_witness", class, || format!("sample {} (position {}): reachability {} has no witness", x, pos[*x], r));
+        }
+    }
+}
+
+// -------------------------------------------------------------------------------------- generators
+
+/// (points, features, kind, optional (tolerance, min_points) the shape was built for)
+fn gen_points(em: &mut Em, rng: &mut Rng) -> (Vec<Vec<f64>>, usize, &'static str, Option<(f64, usize)>) {
+    let big = rng.chance(1, 4);
+    let nmax = if em.thorough() { if big { 70 } else { 16 } } else if big { 36 } else { 12 };
+    let nmin = if big { 17 } else { 0 };
+    let n = rng.range(nmin as i64, nmax as i64) as usize;
+    let scale = *rng.pick(&[1.0, 1.0, 0.5, 0.25, 4.0]);
+    let kind = rng.below(12);
+    let mut hint: Option<(f64, usize)> = None;
+    let mut p = 1 + rng.below(3);
+    let mut pts: Vec<Vec<i64>> = vec![];
+    let name: &'static str;
+    match kind {
+        0 => {
+            name = "chain";
+            // 1-D chain with gaps 1,1,1,2,3 along the first axis
+            let mut x = 0i64;
+            for _ in 0..n {
+                let mut v = vec![0i64; p];
+                v[0] = x;
+                pts.push(v);
+                x += *rng.pick(&[0, 1, 1, 1, 2, 3]);
+            }
+        }
+        1 => {
+            name = "ring";
+            p = 2;
+            let s = 2 + rng.below(4) as i64;
+            let mut ring = vec![];
+            for t in 0..s {
+                ring.push(vec![t, 0]);
+                ring.push(vec![s, t]);
+                ring.push(vec![s - t, s]);
+                ring.push(vec![0, s - t]);
+            }
+            rng.shuffle(&mut ring);
+            for i in 0..n {
+                if i < ring.len() {
+                    pts.push(ring[i].clone());
+                } else {
+                    // centre blob
+                    pts.push(vec![s / 2 + rng.range(0, 1), s / 2]);
+                }
+            }
+        }
+        2 => {
+            name = "touching";
+            // two clumps and a bridge point between them
+            let gap = 2 + rng.below(3) as i64;
+            for i in 0..n {
+                let mut v = vec![0i64; p];
+                match i % 5 {
+                    0 | 1 => v[0] = -gap - rng.range(0, 1),
+                    2 | 3 => v[0] = gap + rng.range(0, 1),
+                    _ => v[0] = rng.range(-1, 1),
+                }
+                if p > 1 {
+                    v[1] = rng.range(0, 1);
+                }
+                pts.push(v);
+            }
+        }
+        3 => {
+            name = "duplicates";
+            let sites = 1 + rng.below(4);
+            let s: Vec<Vec<i64>> = (0..sites).map(|_| (0..p).map(|_| rng.range(0, 4)).collect()).collect();
+            for _ in 0..n {
+                pts.push(rng.pick(&s).clone());
+            }
+        }
+        4 | 5 => {
+            name = "lattice";
+            let b = 2 + rng.below(5) as i64;
+            for _ in 0..n {
+                pts.push((0..p).map(|_| rng.range(0, b)).collect());
+            }
+        }
+        6 => {
+            name = "noise";
+            let b = 2 + rng.below(3) as i64;
+            for i in 0..n {
+                if i % 3 == 0 {
+                    pts.push((0..p).map(|_| rng.range(-50, 50)).collect());
+                } else {
+                    pts.push((0..p).map(|_| rng.range(0, b)).collect());
+                }
+            }
+        }
+        7 => {
+            name = "zero_features";
+            p = 0;
+            for _ in 0..n {
+                pts.push(vec![]);
+            }
+        }
+        8 | 9 => {
+            name = "clumps";
+            // several tight clumps far apart, a few stray samples
+            let c = 2 + rng.below(4);
+            let axis = rng.below(p);
+            let per = (n / c).max(1);
+            for i in 0..n {
+                let k = (i / per).min(c - 1) as i64;
+                let mut v: Vec<i64> = (0..p).map(|_| rng.range(0, 1)).collect();
+                v[axis] += 10 * k;
+                if rng.chance(1, 10) {
+                    v[axis] += 4;
+                }
+                pts.push(v);
+            }
+            hint = Some((*rng.pick(&[1.5, 2.5]) * scale, 2 + rng.below(3)));
+        }
+        10 => {
+            name = "bridge";
+            // two clusters and a sample in range of a core point of each, itself not core:
+            // mp samples at 0, one at 1, the bridge at 3, one at 5, mp samples at 6; tolerance 2.5
+            let mp = 4 + rng.below(2);
+            let mut xs: Vec<i64> = vec![];
+            for _ in 0..mp {
+                xs.push(0);
+                xs.push(6);
+            }
+            xs.extend([1, 3, 5]);
+            if rng.coin() {
+                xs.extend([20, 30]);
+            }
+            for x in xs {
+                let mut v = vec![0i64; p];
+                v[0] = x;
+                pts.push(v);
+            }
+            hint = Some((2.5 * scale, mp));
+        }
+        _ => {
+            name = "generic";
+            // float cloud: log-uniform scale, offset, near-duplicates
+            let sc = 10f64.powf(rng.unit() * 12.0 - 6.0);
+            let off = if rng.coin() { 0.0 } else { sc * 100.0 };
+            let mut f: Vec<Vec<f64>> = vec![];
+            for i in 0..n {
+                if i > 0 && rng.chance(1, 5) {
+                    let k = rng.below(i);
+                    let mut v = f[k].clone();
+                    if rng.coin() {
+                        v[0] += sc * 1e-3;
+                    }
+                    f.push(v);
+                } else {
+                    f.push((0..p).map(|_| off + sc * (rng.unit() * 4.0 - 2.0)).collect());
+                }
+            }
+            rng.shuffle(&mut f);
+            return (f, p, name, None);
+        }
+    }
+    rng.shuffle(&mut pts);
+    (pts.into_iter().map(|v| v.into_iter().map(|c| c as f64 * scale).collect()).collect(), p, name, hint)
+}
+
+/// (tolerance, intended stream)
+fn gen_tol(rng: &mut Rng, pts: &[Vec<f64>], m: Met) -> (f64, bool) {
+    let n = pts.len();
+    let mut v: Vec<f64> = vec![];
+    for i in 0..n {
+        for j in 0..i {
+            let d = m.my(&pts[i], &pts[j]);
+            if d > 0.0 {
+                v.push(d);
+            }
+        }
+    }
+    v.sort_by(|a, b| a.partial_cmp(b).unwrap());
+    v.dedup();
+    if v.is_empty() {
+        return (*rng.pick(&[0.5, 1.0, 3.0]), true);
+    }
+    if rng.chance(1, 25) {
+        return (f64::INFINITY, true);
+    }
+    let k = if rng.coin() { rng.below(v.len().min(3)) } else { rng.below(v.len().min(8)) };
+    if rng.chance(1, 4) {
+        // on the radius
+        (v[k], false)
+    } else if k == 0 && rng.coin() {
+        (v[0] / 2.0, true)
+    } else if k + 1 < v.len() {
+        ((v[k] + v[k + 1]) / 2.0, true)
+    } else {
+        (v[k] * 1.5, true)
+    }
+}
+
+/// relative margin between the tolerance and the nearest inter-point distance
+fn margin(pts: &[Vec<f64>], m: Met, tol: f64) -> f64 {
+    if tol.is_infinite() {
+        return f64::INFINITY;
+    }
+    let mut best = f64::INFINITY;
+    for i in 0..pts.len() {
+        for j in 0..=i {
+            let d = m.my(&pts[i], &pts[j]);
+            best = best.min((d - tol).abs() / tol);
+        }
+    }
+    best
+}
+
+pub fn run(em: &mut Em, rng: &mut Rng) {
+    let configs = if em.thorough() { 25000 } else { 1500 };
+    // the design's witness for the neighbour-order dependence of the OPTICS core distance first
+    one_config(em, vec![vec![0.0], vec![3.0], vec![0.5], vec![2.5], vec![1.0], vec![9.0], vec![9.5]], 1, "witness", Met::L2, 2.75, 3);
+    one_config(em, vec![vec![0.0, 0.0], vec![3.0, 4.0], vec![6.0, 8.0], vec![3.0, 4.0]], 2, "witness", Met::L2, 5.0, 2);
+    // start sample listed after the samples it reaches (before the fix): sample 4 had reachability 4 from sample 1 listed later
+    one_config(em, vec![vec![6.0], vec![2.0], vec![5.0], vec![0.0], vec![6.0]], 1, "witness", Met::L2, 5.5, 5);
+    for _ in 0..configs {
+        let (pts, p, kind, hint) = gen_points(em, rng);
+        let m = *rng.pick(&[Met::L1, Met::L2, Met::Linf]);
+        let (mut tol, _) = gen_tol(rng, &pts, m);
+        let n = pts.len();
+        let mut mp = if rng.chance(1, 15) { n + 1 + rng.below(2) } else { 2 + rng.below(4) }.max(2);
+        if let Some((t, k)) = hint {
+            if rng.chance(3, 4) {
+                tol = t;
+                mp = k;
+            }
+        }
+        one_config(em, pts, p, kind, m, tol, mp);
+    }
+}
+
+fn one_config(em: &mut Em, pts: Vec<Vec<f64>>, p: usize, kind: &'static str, m: Met, tol: f64, mp: usize) {
+    let n = pts.len();
+    let x = arr(&pts, p);
+    let main = margin(&pts, m, tol) >= 1e-9;
+    let stream = if main { "main" } else { "radius" };
+    em.count(&format!("kind:{}", kind));
+    em.count(&format!("stream:{}", stream));
+    em.count(&format!("metric:{}", m.name()));
+    em.count(&format!("n:{}", if n == 0 { "0" } else if n <= 4 { "1-4" } else if n <= 16 { "5-16" } else { ">16" }));
+    em.count(&format!("mp:{}", if mp > n { ">n".to_string() } else { mp.to_string() }));
+    let feat = if p == 0 { "0" } else { "pos" };
+    for (ix, ixname) in IDX.iter() {
+        let cls = |algo: &str| format!("{}:index={}:metric={}:feat={}:stream={}", algo, ixname, m.name(), feat, stream);
+        let obs = catch_unwind(AssertUnwindSafe(|| observe_m(&x, ix, tol, m)));
+        let real = match obs {
+            Ok(r) => r,
+            Err(_) => {
+                let c = cls("nbrs");
+                em.case_valid(format!("#nbrs n={} mp={} tol={} index={} metric={}", n, mp, hex64(tol), ixname, m.name()), &c, |_| panic!("within_range panicked"));
+                continue;
+            }
+        };
+        if !real.zd {
+            let tot: usize = real.nb.iter().map(|l| l.len()).sum();
+            em.count_n("neighbour_pairs", tot as u64);
+            if real.nb.iter().enumerate().any(|(i, l)| l.windows(2).any(|w| real.dm[i][w[0]] > real.dm[i][w[1]])) {
+                em.count(&format!("unsorted_neighbours:{}", ixname));
+            }
+        }
+        let adj = neighbourhood(&pts, m, tol, main, &real);
+        if adj.is_none() {
+            em.count("oracle_skipped:radius_relation_unusable");
+        }
+        if let (Some(a), true) = (&adj, *ixname == "linear") {
+            // shape of the instance (textbook terms), for the distribution record
+            let core: Vec<bool> = (0..n).map(|i| a[i].iter().filter(|b| **b).count() >= mp).collect();
+            let ncore = core.iter().filter(|b| **b).count();
+            let border = (0..n).filter(|&i| !core[i] && (0..n).any(|j| a[i][j] && core[j])).count();
+            let noise = n - ncore - border;
+            let labels_ref = if p == 0 { vec![None; n] } else { dbscan_m(&x, ix, tol, mp, m) };
+            let nclu = labels_ref.iter().filter_map(|l| *l).max().map(|c| c + 1).unwrap_or(0);
+            em.count(&format!("clusters:{}", if nclu >= 3 { ">=3".to_string() } else { nclu.to_string() }));
+            if border > 0 {
+                em.count("with_border_points");
+            }
+            if noise > 0 && ncore > 0 {
+                em.count("with_noise_and_clusters");
+            }
+            // border point in range of cores of two different clusters
+            let shared = (0..n).any(|i| {
+                !core[i] && {
+                    let mut ls: Vec<usize> = (0..n).filter(|&j| a[i][j] && core[j]).filter_map(|j| labels_ref[j]).collect();
+                    ls.sort();
+                    ls.dedup();
+                    ls.len() >= 2
+                }
+            });
+            if shared {
+                em.count("with_border_point_between_two_clusters");
+            }
+        }
+        let zd = real.zd as u8;
+        let nb_s = list2(real.nb.iter().map(|l| l.iter()), |j| j.to_string());
+        let nd_s = list2(real.nd.iter().map(|l| l.iter()), |d| hex64(*d));
+        // ---- DBSCAN
+        {
+            let op = format!("dbscan n={} mp={} zd={} nb={} pts={} tol={} metric={} index={}", n, mp, zd, nb_s, list2(pts.iter().map(|r| r.iter()), |c| hex64(*c)), hex64(tol), m.name(), ixname);
+            let c = cls("dbscan");
+            em.case_valid(op, &c, |ctx| {
+                let labels = dbscan_m(&x, ix, tol, mp, m);
+                if let Some(adj) = &adj {
+                    oracle_dbscan(ctx, &c, adj, mp, &labels);
+                }
+                if main && *ixname != "linear" {
+                    let lin = dbscan_m(&x, &CommonNearestNeighbour::LinearSearch, tol, mp, m);
+                    ctx.require(lin == labels, "index_independent", &c, || format!("labels with {} {:?}, with the linear scan {:?}", ixname, labels, lin));
+                }
+                if labels.iter().all(|l| l.is_none()) {
+                    ctx.mark_trivial();
+                }
+                format!("ok {}", show_labels(&labels))
+            });
+        }
+        // ---- OPTICS
+        {
+            let op = format!("optics n={} mp={} zd={} nb={} nd={} pts={} tol={} metric={} index={}", n, mp, zd, nb_s, nd_s, list2(pts.iter().map(|r| r.iter()), |c| hex64(*c)), hex64(tol), m.name(), ixname);
+            let c = cls("optics");
+            em.case_valid(op, &c, |ctx| {
+                let out = optics_m(&x, ix, tol, mp, m);
+                if let Some(adj) = &adj {
+                    oracle_optics(ctx, &c, adj, &real.dm, mp, &out);
+                }
+                if main && *ixname != "linear" {
+                    let lin = optics_m(&x, &CommonNearestNeighbour::LinearSearch, tol, mp, m);
+                    ctx.require(lin == out, "index_independent", &c, || format!("ordering with {} {}, with the linear scan {}", ixname, show_optics(&out), show_optics(&lin)));
+                }
+                if out.iter().all(|e| e.1.is_none()) {
+                    ctx.mark_trivial();
+                }
+                format!("ok {}", show_optics(&out))
+            });
+        }
+    }
+}
